@@ -6,10 +6,12 @@ One JSON object per input line: {"op": "...", ...}; one JSON line per answer:
 -/
 import DriverLib.Basic
 import DriverLib.C01
+import DriverLib.C14
 open Lean Drv
 
 def handlers : List (String → Json → Option (R Json)) := [
   Drv.C01.handle,
+  Drv.C14.handle,
   fun _ _ => none]
 
 def dispatch (line : String) : Json :=
